@@ -315,11 +315,12 @@ def _gen_perturb(S, cfg, m, h):
             cur = [list(x) for x in _get_loc(m, loc)]
             j = S.randint(0, len(cur) - 1)
             if kind == 'value':
-                twins = [jj for jj, x in enumerate(cur) if isinstance(x[0], str) and x[0] in SP.CASE_TWIN]
+                twins = [jj for jj, x in enumerate(cur) if not isinstance(x[0], bool) and x[0] in SP.VALUE_TWIN]
                 if twins:
-                    # a value that differs from the old one only in letter case (and is another substance)
+                    # a near-miss: another value that differs from the old one only in letter case (and is another
+                    # substance), or has the same hash(), or is equal up to a float tolerance
                     j = S.pick(twins)
-                    nv = SP.CASE_TWIN[cur[j][0]]
+                    nv = SP.VALUE_TWIN[cur[j][0]]
                 else:
                     nv = SP.gen_value(S, cfg)
                 if _same_value(nv, cur[j][0]):
